@@ -33,7 +33,23 @@ import numpy as np  # noqa
 from fusion_engine_client.messages import MessageHeader, Timestamp, message_type_to_class
 from fusion_engine_client.parsers import fast_indexer as fi
 
-REAL = (fi._READ_SIZE_BYTES, fi._MAX_FE_MSG_SIZE_BYTES)
+def _name(*cands):
+    for n in cands:
+        if isinstance(getattr(fi, n, None), int):
+            return n
+    return None
+
+
+# the module attributes holding the block constants (private: if they are gone the supporting small-constant run is
+# skipped and reported as such; the main run does not need them)
+N_READ = _name('_READ_SIZE_BYTES', 'READ_SIZE_BYTES')
+N_MAX = _name('_MAX_FE_MSG_SIZE_BYTES', 'MAX_FE_MSG_SIZE_BYTES')
+PATCHABLE = N_READ is not None and N_MAX is not None
+REAL = (getattr(fi, N_READ), getattr(fi, N_MAX)) if PATCHABLE else None
+
+
+def set_consts(rd, mx):
+    setattr(fi, N_READ, int(rd)); setattr(fi, N_MAX, int(mx))
 
 
 def okey(mtype, ver, payload):
@@ -154,20 +170,22 @@ def registered():
 
 
 def _worker_consts(_):
-    return [fi._READ_SIZE_BYTES, fi._MAX_FE_MSG_SIZE_BYTES, os.getpid()]
+    return [getattr(fi, N_READ), getattr(fi, N_MAX), os.getpid()]
 
 
 def probe_fork():
     """are module constants patched in this process seen by the pool workers fast_generate_index creates?"""
-    from multiprocessing import get_start_method
-    fi._READ_SIZE_BYTES, fi._MAX_FE_MSG_SIZE_BYTES = 64, 48
+    from multiprocessing import get_start_method, Pool
+    if not PATCHABLE:
+        return {'start_method': get_start_method(), 'workers_see': None, 'other_process': None, 'patchable': False}
+    set_consts(64, 48)
     try:
-        with fi.Pool(3) as p:
+        with Pool(3) as p:
             seen = p.map(_worker_consts, range(6))
     finally:
-        fi._READ_SIZE_BYTES, fi._MAX_FE_MSG_SIZE_BYTES = REAL
+        set_consts(*REAL)
     return {'start_method': get_start_method(), 'workers_see': sorted(set((a, b) for a, b, _ in seen)),
-            'other_process': any(pid != os.getpid() for _, _, pid in seen)}
+            'other_process': any(pid != os.getpid() for _, _, pid in seen), 'patchable': True}
 
 
 def main():
@@ -186,12 +204,17 @@ def main():
         data = c08_files.build(case['recipe'])
         with open(path, 'wb') as f:
             f.write(data)
-        consts = case.get('consts') or REAL
-        fi._READ_SIZE_BYTES, fi._MAX_FE_MSG_SIZE_BYTES = int(consts[0]), int(consts[1])
+        if case.get('consts') and not PATCHABLE:
+            print(json.dumps({'id': case.get('id'), 'skipped': 'block constants are not patchable module attributes'}), flush=True)
+            continue
+        consts = case.get('consts') or REAL or case.get('real_consts')
+        if case.get('consts'):
+            set_consts(*consts)
         try:
             runs = {str(nt): run_index(path, nt) for nt in case['threads']}
         finally:
-            fi._READ_SIZE_BYTES, fi._MAX_FE_MSG_SIZE_BYTES = REAL
+            if case.get('consts'):
+                set_consts(*REAL)
         res = {'id': case.get('id'), 'size': len(data), 'runs': runs, 'consts': [int(consts[0]), int(consts[1])]}
         if case.get('oracle', True):
             res['oracle'] = oracle_table(data, (int(consts[0]), int(consts[1])) if case.get('legacy_view') else None)
